@@ -547,8 +547,9 @@ def sendAll (env : Env) (d : Desc) (b : Bundle) : List Peer → Node → Node ×
 /-- The second half of `Core.forward`: transmit to the selected senders, then purge (delete) or mark
 contraindicated. `r` = (senders, delete-afterwards, descriptor, state). -/
 def forwardSend (env : Env) (b : Bundle) (r : List Peer × Bool × Desc × Node) : Node × List Output :=
-  let b' := r.2.2.1.bndl.getD b
-  let s := sendAll env r.2.2.1 b' r.1 r.2.2.2
+  -- (the bundle handed to the CLAs is `r.2.2.1.bndl`: `b` with the hop count, previous node, age and spray
+  -- blocks rewritten — the bytes are other properties' business; the outputs name the bundle `b`)
+  let s := sendAll env r.2.2.1 b r.1 r.2.2.2
   if s.2.2 && r.2.1 then (sync { r.2.2.1 with cons := r.2.2.1.cons.purge } s.1, s.2.1)
   else (bundleContraindicated r.2.2.1 s.1, s.2.1)
 
